@@ -314,6 +314,14 @@ def plan(quick: bool):
             for mz in (12,) if quick else (4, 12):
                 for i in range(nsh):
                     jobs.append(("shard_hist", (rel, eav, mz, i, nsh, True)))
+    # the largest configurable max_zones with every single edit (zone indexes 0C-0F become reachable): shortest logs (quick) / all
+    for rel in logs:
+        n = len(GC.log(rel))
+        if n > (60 if quick else 600):
+            continue
+        nsh = max(1, n // 10)
+        for i in range(nsh):
+            jobs.append(("shard_hist", (rel, False, 16, i, nsh, True)))
     return jobs
 
 
@@ -324,7 +332,7 @@ def run(ctx) -> None:
         total,
         rule="(1) generated schemas: full product of zone 00 and 01 options (absent / 5 classes x sensor none|34:|04:|controller x actuators 0-2 / empty zone) x "
         "zone 0B x every subset of DHW parts x appliance none|13:|10:, + two controllers / orphans / UFH: validator accepts => loads, reports what was "
-        "configured, reloads to the same; (2) histories: the repo's logs under max_zones 1/4/12/16, eavesdropping off/on, checked every 10th packet, "
+        "configured, reloads to the same; (2) histories: the repo's logs under max_zones 1/4/12/16, eavesdropping off/on, checked every 10th packet, and every single edit also under max_zones 16, "
         "and every single edit (delete/duplicate/swap/field mutation) checked after the edit and at the end: reported schema validates (full and "
         "shrunk), a fresh gateway built from it has the same controllers/zones/DHW/appliance, graph invariants hold, no device changes parent silently",
         exhaustive=True,
